@@ -80,6 +80,8 @@ def diff(requests, impl_replies, model_replies):
     """Returns a list of (index, request, impl, model) for disagreeing replies."""
     bad = []
     for i, (q, a, b) in enumerate(zip(requests, impl_replies, model_replies)):
+        if isinstance(a, dict) and a.get("skip"):
+            continue  # the implementation side could not be observed for this request (see codec.pack_header): not judged
         na, nb = strip_unobservable(norm(a), norm(b))
         if na != nb:
             bad.append((i, q, a, b))
